@@ -40,11 +40,14 @@ type pwFrame struct {
 }
 
 type pwCase struct {
-	Kind  string  `json:"kind"`
-	Frame pwFrame `json:"frame"`
-	Res   string  `json:"res"`
-	Out   []int   `json:"out"`
-	Req   string  `json:"req"`
+	Kind   string   `json:"kind"`
+	Frame  pwFrame  `json:"frame"`
+	Res    string   `json:"res"`
+	Out    []int    `json:"out"`
+	Req    string   `json:"req"`
+	Frame2 *pwFrame `json:"frame2"` // ReadPair: the frame read after Frame, before anything is re-serialized
+	Res2   string   `json:"res2"`
+	Out2   []int    `json:"out2"`
 }
 
 type pwObs struct {
@@ -57,6 +60,7 @@ type pwObs struct {
 	Decl   int64  `json:"decl"`   // value of the length field
 	Bad    string `json:"bad,omitempty"`
 	Same   bool   `json:"same"` // accepted: WriteMessage reproduces the frame that was read
+	Later  bool   `json:"later"` // accepted: the message's serialization changed after further frames were read
 }
 
 // reader that records the largest read offset requested
@@ -282,6 +286,36 @@ func TestVerifP2PWireCases(t *testing.T) {
 					o.Bad = fmt.Sprintf("WriteMessage gives %d bytes %s..., specification %d bytes %s...", len(written), pwHexHead(written), len(exp), pwHexHead(exp))
 				}
 			}
+			// a returned message is a value of its own: reading further frames (here: the second frame of a
+			// ReadPair case, then an unknown-command frame of 512 filler bytes, from another reader) must not
+			// change what it serializes to
+			first := append([]byte{}, written...)
+			if c.Frame2 != nil {
+				p2 := pwMaterialize(c.Frame2.Payload, fx)
+				s2 := append(pwHeader(magic, c.Frame2.Cmd, uint32(len(p2)), pwChecksum(p2)), p2...)
+				var m2 Message
+				var e2 error
+				if pp := pwCatch(func() { m2, _, e2 = ReadMessage(bytes.NewReader(s2)) }); pp != "" {
+					o.Bad += " second frame panics: " + pp
+				} else if (e2 == nil) != (c.Res2 == "ok") && c.Res2 != "any" {
+					o.Bad += fmt.Sprintf(" second frame: real error %v, specification %s", e2, c.Res2)
+				} else if e2 == nil && c.Res2 == "ok" {
+					sk := comm.NewZeroCopySink(nil)
+					WriteMessage(sk, m2)
+					e2p := pwMaterialize(c.Out2, fx)
+					if !bytes.Equal(sk.Bytes(), append(pwHeader(magic, c.Frame2.Cmd, uint32(len(e2p)), pwChecksum(e2p)), e2p...)) {
+						o.Bad += " second frame does not re-serialize as specified"
+					}
+				}
+			}
+			filler := bytes.Repeat([]byte{0xEE}, 512)
+			ReadMessage(bytes.NewReader(append(pwHeader(magic, "filler", 512, pwChecksum(filler)), filler...)))
+			again := comm.NewZeroCopySink(nil)
+			if wp := pwCatch(func() { WriteMessage(again, msg) }); wp != "" || !bytes.Equal(again.Bytes(), first) {
+				o.Later = true
+				o.Bad += fmt.Sprintf(" the message changed after later reads: first %s..., now %s... %s", pwHexHead(first), pwHexHead(again.Bytes()), wp)
+			}
+			written = first
 			// what was written must be readable again and yield the same bytes
 			msg2, _, err2 := ReadMessage(bytes.NewReader(written))
 			if err2 != nil {
